@@ -194,7 +194,7 @@ int main(int argc, char** argv)
   groups.push_back({ "seeds", seeds().flat.size(), seeds().flat.size(), caseSeed, 120, true });
   groups.push_back({ "corpus", corpus().files.size(), corpus().files.size(), caseCorpus, 180, false });
   groups.push_back({ "hexinput", getenv("VERIF_HEX_INPUT") ? 1u : 0u, getenv("VERIF_HEX_INPUT") ? 1u : 0u, caseHex, 120, false });
-  const vrt::u64 q = 4000, th = 150000;
+  const vrt::u64 q = 4000, th = 80000;
   groups.push_back({ "gen-text", q, th, caseGen<0>, 120, false });
   groups.push_back({ "gen-tokenizer", q, th, caseGen<1>, 120, false });
   groups.push_back({ "gen-keyval", q, th, caseGen<2>, 120, false });
